@@ -782,7 +782,29 @@ impl Run {
         if *cfg != self.cfg {
             self.classes.hit("reopen_cfg_change");
         }
-        self.open_store(cfg).map_err(|e| Fail::new("clean-reopen-failed", format!("open after flush+ack+drop failed: {e}")))?;
+        self.open_store(cfg).map_err(|e| {
+            let tail = trace::with_ctl(|c| {
+                let n = c.trace.len();
+                c.trace[n.saturating_sub(40)..]
+                    .iter()
+                    .map(|ev| match ev {
+                        trace::Ev::Write { file, off, data, tid } => format!("write({},off {},{}B)@{}", c.names[*file as usize], off, data.len(), tid),
+                        trace::Ev::Sync { file, ok, tid } => format!("sync({},{})@{}", c.names[*file as usize], ok, tid),
+                        trace::Ev::Unlink { file, ok, tid } => format!("unlink({},{})@{}", c.names[*file as usize], ok, tid),
+                        trace::Ev::Open { file, create, ok, tid } => format!("open({},create {},{})@{}", c.names[*file as usize], create, ok, tid),
+                        trace::Ev::Truncate { file, len, tid } => format!("truncate({},{})@{}", c.names[*file as usize], len, tid),
+                        trace::Ev::Ack { flush, ok, tid, .. } => format!("ack({},{})@{}", flush, ok, tid),
+                        trace::Ev::AckDropped { flush } => format!("ack-dropped({})", flush),
+                        trace::Ev::Mark(m) => format!("{:?}", m),
+                        trace::Ev::WriteFail { file, tid } => format!("writefail({})@{}", c.names[*file as usize], tid),
+                        trace::Ev::Pread { .. } => "pread".to_string(),
+                    })
+                    .collect::<Vec<_>>()
+                    .join(" | ")
+            })
+            .unwrap_or_default();
+            Fail::new("clean-reopen-failed", format!("open after flush+ack+drop failed: {e}; last trace events: {tail}"))
+        })?;
         Ok(())
     }
 
